@@ -9,6 +9,11 @@ CLAIMED = {
    technique="custom go/ssa + go/types analysis: exhaustiveness of type switches against a parser-derived node model, must-visit dataflow per clause, error-propagation rule",
    design="4 C17"),
 }
+CLAIMED["C19"] = dict(
+   text="Static decision of the table clauses exhaustively (every one of the ~595 entries of every package table resolves, by go/types, to the exported Go object or named type it is listed under, in the package whose import path the table is registered under), plus structural necessary conditions of the builtins (listed names defined with the contract's result type; range: argument-count/zero-step rejections, strict bounds in both directions, roles of the three arguments, appends its induction variable; keys: one element per MapKeys entry; toSlice: Zero on the unconvertible edge). The value-level arithmetic of range near int64 limits and toInt/toFloat/toString versus strconv/fmt is NOT decided.",
+   note="Trusted: go/types resolution, go/ssa. Secondary build configurations (GOARCH=386, tag appengine) are covered in the thorough tier. Decides the structural part only, not the conversions' numeric behaviour.",
+   technique="go/types resolution of every table entry (exhaustive) + SSA shape rules for range/keys/toSlice",
+   design="4 C19")
 NOT_YET = "checker for this property is not built yet in this revision (see DESIGN.md section 4 for the planned static rules)"
 ALL = ["C%02d" % i for i in range(1, 21)]
 
